@@ -181,9 +181,9 @@ def tree_signature(m):
                     kids.append(('C', c.id, c.seq, c.usage, c.data_ele, tuple((s.id, s.seq, s.usage, s.data_ele, tuple(s.valid_codes), s.external_codes, s.res) for s in c.children)))
                 else:
                     kids.append(('E', c.id, c.seq, c.usage, c.data_ele, tuple(c.valid_codes), c.external_codes, c.res))
-            out.append((ip, 'S', n.id, n.path, n.pos, n.usage, n.max_use, tuple(tuple(s) for s in n.syntax), tuple(kids)))
+            out.append((ip, 'S', n.id, n.path, n.get_path(), n.pos, n.usage, n.max_use, tuple(tuple(s) for s in n.syntax), tuple(kids)))
         else:
-            out.append((ip, 'L', n.id, n.path, n.pos, n.usage, n.repeat, n.type))
+            out.append((ip, 'L', n.id, n.path, n.get_path(), n.pos, n.usage, n.repeat, n.type))
     return out
 
 
@@ -331,11 +331,32 @@ def run(tier):
                                               'required': 'the node whose get_path() is this path'})
         res.count(nel)
         # explicit map directory gives the same tree
-        m2 = pyx12.map_if.load_map_file(f, param, mapdir)
-        res.count()
-        if tree_signature(m) != tree_signature(m2):
-            res.violation('pred:mapdir-differs:%s' % f, '%s: tree loaded from explicit map directory differs from packaged resource' % f,
-                          {'map': f, 'call': 'load_map_file(f, params, map_path) vs load_map_file(f, params)'})
+        # (loaded with the package logger at DEBUG: the tree must not depend on the logging level either)
+        import logging
+        lg = logging.getLogger('pyx12')
+        old_level, old_prop = lg.level, lg.propagate
+        nh = logging.NullHandler()
+        lg.addHandler(nh)
+        lg.setLevel(logging.DEBUG)
+        lg.propagate = False
+        try:
+            m2 = pyx12.map_if.load_map_file(f, param, mapdir)
+            sig2 = tree_signature(m2)
+        finally:
+            lg.setLevel(old_level)
+            lg.propagate = old_prop
+            lg.removeHandler(nh)
+        res.count(2)
+        if tree_signature(m) != sig2:
+            m3 = pyx12.map_if.load_map_file(f, param, mapdir)
+            if tree_signature(m) != tree_signature(m3):
+                res.violation('pred:mapdir-differs:%s' % f, '%s: tree loaded from explicit map directory differs from packaged resource' % f,
+                              {'map': f, 'call': 'load_map_file(f, params, map_path) vs load_map_file(f, params)'})
+            else:
+                bad = [(a[1:5], b[1:5]) for a, b in zip(tree_signature(m), sig2) if a != b][:1]
+                res.violation('pred:loglevel-differs:%s' % f, '%s: tree loaded with the pyx12 logger at DEBUG differs from the default-level load, e.g. %r' % (f, bad),
+                              {'map': f, 'call': "logging.getLogger('pyx12').setLevel(DEBUG); load_map_file(f, params, map_path) vs default level",
+                               'observed': repr(bad), 'required': 'identical trees and reported paths'})
     # index
     res.obligations.append('Gen.index_keys_unambiguous')
     if (ok and 'Gen.index_keys_unambiguous' in axioms) or (not ok and 'Gen.Checks.Index' not in failed_mods):
